@@ -2,18 +2,144 @@
    This file contains only statements; every proof is [exact <lemma>].
    The model (Model/Tlv8.v) is tied to aiohomekit/tlv8.py by the correspondence
    check harness/c16.py, which reflects every TLVStruct subclass at run time and
-   has the model evaluate [wf_schema] on it. *)
-From Coq Require Import List NArith Arith Bool Lia.
-From AHK Require Import Lib.Res Lib.ByteStr Model.Tlv8 Proofs.Tlv8Iter Proofs.Tlv8.
+   has the model evaluate [wf_schema] on it.
+
+   Reading guide.  [ty] is the schema universe (ints of six kinds, IntEnum, str,
+   bytes, nested struct, list of structs, packed list of ints, unsupported).
+   [wf_schema]: every struct has distinct one-byte item types, and a struct used
+   as a list element has no item type 0 (the list separator).  [fits_msg]: ints
+   in range, enum values are members, strings valid UTF-8, and every SET string,
+   bytes, list, nested struct and list element serialises to at least one byte
+   (a set-but-empty field is not transmitted at all, so it cannot be distinguished
+   from an unset one: excluded explicitly, reported by the harness).  The fuel
+   [n] of [enc]/[dec]/[wf]/[fits] is the nesting depth; theorems hold for every n. *)
+From Coq Require Import List NArith Arith Bool Lia Permutation.
+From AHK Require Import Lib.Res Lib.ByteStr Model.Tlv8 Proofs.Tlv8Iter Proofs.Tlv8 Proofs.Tlv8Order.
 Import ListNotations.
 
 Lemma F255 : 0 < 255. Proof. lia. Qed.
 
-(* every message type with a well-formed schema, at any nesting depth, and every
-   value in the wire format's domain: encode succeeds and decode returns the value *)
+(* ---- round trip --------------------------------------------------------- *)
+(* every message type with a well-formed schema and every value in the wire
+   format's domain: encode succeeds and decode returns exactly the value *)
 Theorem tlv8_roundtrip : forall t v,
     wf_schema t = true -> fits_msg t v = true ->
     exists e, tlv8_encode t v = Ok e /\ tlv8_decode t e = Ok v.
 Proof. intros t v. exact (roundtrip_top 255 F255 (fuel_of t) t v). Qed.
 
+(* the same for every depth bound n (so: at any nesting depth) ... *)
+Theorem tlv8_roundtrip_depth : forall n t v,
+    wf n t = true -> fits_top n t v = true ->
+    exists e, enc 255 n t v = Ok e /\ dec 255 n t e = Ok v.
+Proof. exact (roundtrip_top 255 F255). Qed.
+
+(* ... and for a value used as a field: its serialisation is never empty *)
+Theorem tlv8_field_roundtrip : forall n t v,
+    wf n t = true -> fits n t v = true ->
+    exists e, enc 255 n t v = Ok e /\ e <> [] /\ dec 255 n t e = Ok v.
+Proof. exact (roundtrip_n 255 F255). Qed.
+
+(* ---- canonical form -------------------------------------------------------- *)
+(* whatever encode returns is the textbook encoding: declaration order, maximal
+   255-byte fragments, "00 00" between list items, nothing for unset fields *)
+Theorem tlv8_canonical : forall t v e, tlv8_encode t v = Ok e -> e = tlv8_spec t v.
+Proof. intros t v e. exact (canonical_n 255 F255 (fuel_of t) t v e). Qed.
+
+(* ---- what accessories send: any item order, at every nesting level ------------ *)
+(* [acc_msg 255 n t v e]: e transmits v with one item per set field, in any order,
+   recursively (Proofs/Tlv8Order.v).  Decoding returns exactly v. *)
+Theorem tlv8_accessory_order : forall t v e,
+    wf_schema t = true -> acc_msg 255 (fuel_of t) t v e -> tlv8_decode t e = Ok v.
+Proof. intros t v e. exact (acc_msg_sound 255 F255 (fuel_of t) t v e). Qed.
+
+Theorem tlv8_accessory_order_depth : forall n t v e,
+    wf n t = true -> acc 255 n t v e -> e <> [] /\ dec 255 n t e = Ok v.
+Proof. exact (acc_sound 255 F255). Qed.
+
+(* the library's own encoding is one of the acceptable transmissions *)
+Theorem tlv8_own_encoding_acceptable : forall n t v e,
+    fits n t v = true -> enc 255 n t v = Ok e -> acc 255 n t v e.
+Proof. exact (enc_acc 255). Qed.
+
+(* ---- packed id lists (linked services) --------------------------------------- *)
+(* n ids of any fixed-width kind, packed, decode to exactly those ids *)
+Theorem tlv8_sequ16 : forall k l,
+    forallb (irange k) l = true -> unpack k (concat (map (ienc k) l)) = l.
+Proof. exact unpack_pack. Qed.
+
+(* and every even-length byte string is the packing of the u16 ids it decodes to:
+   no byte value (0x00 in particular) is treated specially *)
+Theorem tlv8_sequ16_every_byte : forall b,
+    all_bytes b = true -> Nat.even (length b) = true ->
+    concat (map (ienc U16) (unpack U16 b)) = b.
+Proof. intros b Hb He. exact (pack_unpack_u16 b (length b) Hb He (le_n _)). Qed.
+
+(* ---- fragment boundaries ------------------------------------------------------- *)
+(* one iterator step over the fragments of a value of ANY length (in particular
+   255*k, where the last fragment is full and the look-ahead reads the next byte):
+   it yields the whole value and stops exactly behind it, provided the following
+   byte is not the value's own type *)
+Theorem tlv8_frag_boundary : forall t e rest,
+    e <> [] -> hd_ne t rest ->
+    exists y, step 255 (emit 255 t e ++ rest) = Ok y
+      /\ y_tag y = t /\ y_val y = e /\ y_next y = rest
+      /\ y_pre y ++ t :: y_len y :: y_last y = emit 255 t e.
+Proof. intros t e rest He Hh. exact (step_frags 255 F255 t e rest (length e) He (le_n _) Hh). Qed.
+
+(* the iterator returns the items of a rendered message ... *)
+Theorem tlv8_iterator_items : forall L,
+    Forall nonempty L -> no_adj (map fst L) -> tlv8_items (render 255 L) = (L, FinOk).
+Proof. exact (items_of_render 255 F255). Qed.
+
+(* ... and tlv_array splits a list exactly at its separators, whatever the lengths
+   of the values inside the elements *)
+Theorem tlv8_array_split : forall Ls,
+    Forall elem_ok Ls -> Ls <> [] ->
+    tlv8_array (join [0%N; 0%N] (map (render 255) Ls)) = (map (render 255) Ls, FinOk).
+Proof. exact (tlv_array_join 255 F255). Qed.
+
+(* ---- non-vacuity ------------------------------------------------------------------ *)
+(* a list of structs with 510-byte values (two full fragments: 255*2) next to other
+   fields, nested two levels deep, plus a packed id list with a zero low byte *)
+Definition ex_schema : ty :=
+  TStruct [(1%N, TSeq [(1%N, TBytes); (2%N, TInt U16); (3%N, TStruct [(1%N, TStr); (2%N, TEnum [0%N; 1%N; 2%N])])]);
+           (15%N, TInt U16);
+           (16%N, TSeqInt U16)].
+Definition ex_value : val :=
+  VStruct [Some (VSeq [[Some (VB (repeat 1%N 510)); Some (VInt 300); None];
+                       [Some (VB (repeat 0%N 255)); None; Some (VStruct [Some (VB [104%N; 105%N]); Some (VInt 2)])]]);
+           None;
+           Some (VIds [16%N; 32%N; 8192%N])].
+
+Example c16_nonvacuous :
+  wf_schema ex_schema = true /\ fits_msg ex_schema ex_value = true /\
+  (exists e, tlv8_encode ex_schema ex_value = Ok e /\ length e = 802 /\ tlv8_decode ex_schema e = Ok ex_value).
+Proof.
+  split; [vm_compute; reflexivity|]. split; [vm_compute; reflexivity|].
+  eexists. split; [vm_compute; reflexivity|]. split; vm_compute; reflexivity.
+Qed.
+
+(* an accessory sending the items in another order: 02 01 07 | 01 01 05 *)
+Example c16_order_nonvacuous :
+  let t := TStruct [(1%N, TInt U8); (2%N, TBytes)] in
+  let v := VStruct [Some (VInt 5); Some (VB [7%N])] in
+  acc_msg 255 (fuel_of t) t v [2%N; 1%N; 7%N; 1%N; 1%N; 5%N] /\ wf_schema t = true.
+Proof.
+  cbv zeta. split; [|vm_compute; reflexivity].
+  exists [(2%N, [7%N]); (1%N, [5%N])]. split; [reflexivity|]. split; [reflexivity|].
+  exists [(2%N, TBytes, VB [7%N]); (1%N, TInt U8, VInt 5)]. split; [apply perm_swap|].
+  repeat constructor.
+Qed.
+
 Print Assumptions tlv8_roundtrip.
+Print Assumptions tlv8_roundtrip_depth.
+Print Assumptions tlv8_field_roundtrip.
+Print Assumptions tlv8_canonical.
+Print Assumptions tlv8_accessory_order.
+Print Assumptions tlv8_accessory_order_depth.
+Print Assumptions tlv8_own_encoding_acceptable.
+Print Assumptions tlv8_sequ16.
+Print Assumptions tlv8_sequ16_every_byte.
+Print Assumptions tlv8_frag_boundary.
+Print Assumptions tlv8_iterator_items.
+Print Assumptions tlv8_array_split.
